@@ -278,6 +278,11 @@ def run(ctx):
     from . import c01 as _c01
     borrow(ctx, "C03", _c01.rule_phase, tu, cxa.Effects(tu))
     from .. import lints
+    # shared clauses: no bare number of a quantity is taken without a conversion (C04.STATE: the zero of a chemostated entry and
+    # the derivative of a free one must be in one unit); free entries follow the tau-leap firing law (C07.TAU)
+    from . import c04 as _c04, c07 as _c07
+    borrow(ctx, "C03", _c04.rule_state, ctx.py)
+    borrow(ctx, "C03", _c07.rule_tau, tu)
     lints.run(ctx, "C03", ctx.py, ["kinetics", "rdsystem", "librdengine", "rdscript", "simulate"], truth_floor=24)
     ctx.assume("equality with the recorded initial value is decided only as 'never written after Init' "
                "(t = 0 processing is C14)")
